@@ -997,18 +997,49 @@ func checkWaitClock(c *engine.Ctx, rule string) {
 func checkSidWorker(c *engine.Ctx, rule string) {
 	c.Rule(rule, "XTCPProxy.Run's relay goroutine returns only through the closeCh arm of its select (or when the sid channel is closed)")
 	run := fn(c, "server/proxy.XTCPProxy.Run")
-	closeF := field(c, "server/proxy", "XTCPProxy", "closeCh")
-	if run == nil || closeF == nil {
+	if run == nil {
 		return
+	}
+	// the proxy's stop signal: its closeCh field, or — when the stop-only channel was replaced by a cancellable context —
+	// the Done() channel of a context (the relay is the only select of the proxy that also receives session ids)
+	var closeF *types.Var
+	if xt := c.P.Named("server/proxy", "XTCPProxy"); xt != nil {
+		if st, ok := xt.Underlying().(*types.Struct); ok {
+			for i := 0; i < st.NumFields(); i++ {
+				if st.Field(i).Name() == "closeCh" {
+					closeF = st.Field(i)
+				}
+			}
+		}
+	}
+	isStop := func(ch ssa.Value) bool {
+		if lf, _ := engine.LoadedField(ch); lf != nil && lf == closeF {
+			return true
+		}
+		if call, ok := engine.Unwrap(ch).(*ssa.Call); ok && call.Call.IsInvoke() && call.Call.Method.Name() == "Done" && engine.IsNamed(call.Call.Value.Type(), "context", "Context") {
+			return true
+		}
+		return false
 	}
 	n := 0
 	for _, af := range allFuncsOfPkg(run.Pkg) {
+		if !(af == run || fnReachesFn(run, af)) {
+			continue
+		}
 		var sel *ssa.Select
 		closeIdx := -1
 		engine.ForEachInstr(af, func(in ssa.Instruction) {
 			if s, ok := in.(*ssa.Select); ok {
+				hasSid := false
+				for _, stt := range s.States {
+					if ch, ok := stt.Chan.Type().Underlying().(*types.Chan); ok {
+						if b, ok := ch.Elem().Underlying().(*types.Basic); ok && b.Kind() == types.String {
+							hasSid = true
+						}
+					}
+				}
 				for i, stt := range s.States {
-					if lf, _ := engine.LoadedField(stt.Chan); lf == closeF {
+					if isStop(stt.Chan) && (hasSid || closeF != nil) {
 						sel, closeIdx = s, i
 					}
 				}
